@@ -15,14 +15,23 @@ if __name__ == '__main__':
     from ddsmt import nodeio, __main__
     real = nodeio.write_smtlib_to_file
     log = os.environ.get('DDSMT_WRITES')
+    mask = os.environ.get('DDSMT_WRITES_MASK')
 
     def wrapped(filename, exprs):
         real(filename, exprs)
         if log:
             with open(filename, 'rb') as f:
-                h = hashlib.sha256(f.read()).hexdigest()[:16]
+                data = f.read()
+            h = hashlib.sha256(data).hexdigest()[:16]
+            line = h
+            if mask:
+                # second column: digest with the masked pattern blanked, so
+                # that a difference can be attributed to that pattern
+                import re
+                line += ' ' + hashlib.sha256(
+                    re.sub(mask.encode(), b'#', data)).hexdigest()[:16]
             with open(log, 'a') as f:
-                f.write(h + '\n')
+                f.write(line + '\n')
 
     nodeio.write_smtlib_to_file = wrapped
     sys.exit(__main__.main())
